@@ -81,6 +81,15 @@ def alistSet {κ ν : Type} [BEq κ] (d : AList κ ν) (k : κ) (v : ν) : AList
 /-- `s.add(x)` on a set kept as a duplicate-free list -/
 def pySetAdd {α : Type} [BEq α] (s : List α) (x : α) : List α := if s.elem x then s else s ++ [x]
 
+/-- the cache columns `LineData` keeps in the frame it wraps (`None` = the frame has no such column) -/
+structure LineCols where
+  length : Option (List Rat) := none
+  azimuth : Option (List Rat) := none
+  azimuth_set : Option (List String) := none
+  boundary_weight : Option (List Int) := none
+  length_nw : Option (List Rat) := none
+deriving Repr, DecidableEq
+
 /-- Python `l[lo:hi]` for non-negative bounds (bounds past the end are clipped, as Python does) -/
 def pySliceL {α : Type} (l : List α) (lo hi : Nat) : List α := (l.take hi).drop lo
 
